@@ -80,7 +80,7 @@ def main():
     sys.exit(rc)
 
 def write_replay(pid, name, content):
-    d = os.path.join(os.path.dirname(os.path.abspath(__file__)), "..", "replay", pid)
+    d = os.path.join(os.environ.get("VERIF_OUT") or os.path.join(os.path.dirname(os.path.abspath(__file__)), ".."), "replay", pid)
     os.makedirs(d, exist_ok=True)
     p = os.path.abspath(os.path.join(d, name + ".json"))
     json.dump(content, open(p, "w"), indent=1)
